@@ -824,28 +824,34 @@ variables) the pruned search returns exactly the brute-force answer over the sto
 traversal order.  `pd`/`bd` are arbitrary: this covers the periodic distances as well, *given*
 the hypotheses. -/
 theorem octree_search_is_bruteforce (pd : Nat → ℝ) (bd : Box3 ℝ → ℝ) (h : Nat → ℝ) (radius : Option ℝ)
-    (hr : ∀ r, radius = some r → 0 ≤ r) (b : Box3 ℝ) (v : ℝ) (kids : Fin 8 → OT ℝ)
-    (hc : Covered pd bd h (OT.node b v kids)) :
-    searchRoot pd bd h radius (OT.node b v kids) =
-      (leavesOf (OT.node b v kids)).filter (fun i => decide (pd i ≤ limOf h radius i)) :=
-  searchRoot_eq_filter pd bd h radius hr b v kids hc
+    (hr : ∀ r, radius = some r → 0 ≤ r) (t : OT ℝ) (hc : Covered pd bd h t) :
+    searchRoot pd bd h radius t = (leavesOf t).filter (fun i => decide (pd i ≤ limOf h radius i)) :=
+  searchRoot_eq_filter pd bd h radius hr t hc
 
 /-- non-periodic tree as built by the constructor (`add_position` for 1 … n-1, then
-`set_auxiliaries(max)`), positions in the half-open box, at least two positions: the covering
+`set_auxiliaries(max)`), positions in the half-open box, any number of positions (a one-position
+tree has a leaf as root: the walks start at the root itself, `get_first_node`): the covering
 hypotheses hold, hence a stored index is returned iff the centre lies within its smoothing length
 (+ radius), and only indices `< n` are returned.  Partial: "stored" — that every index `< n` is
 stored needs the positions to separate within the 64 levels of the model's recursion fuel (the
 code recurses without bound; equal positions never separate). -/
 theorem octree_build_search_partial (pos : Nat → V3 ℝ) (n : Nat) (box : Box3 ℝ) (h : Nat → ℝ) (c : V3 ℝ)
     (radius : Option ℝ) (hr : ∀ r, radius = some r → 0 ≤ r) (hb : PosBox box)
-    (hin : ∀ i < n, InBox box (pos i)) (hn : 2 ≤ n) (i : Nat) :
+    (hin : ∀ i < n, InBox box (pos i)) (i : Nat) :
     (i ∈ searchRoot (fun i => dist (pos i) c) (fun b => boxDist b c) h radius (build pos n box h) ↔
       i ∈ leavesOf (build pos n box h) ∧ dist (pos i) c ≤ limOf h radius i) ∧
     (i ∈ leavesOf (build pos n box h) → i < n) := by
-  obtain ⟨hc, hlt, b, v, kids, he⟩ := build_spec pos n box h c hb hin hn
+  obtain ⟨hc, hlt⟩ := build_spec pos n box h c hb hin
   refine ⟨?_, hlt i⟩
-  rw [he] at hc ⊢
-  rw [searchRoot_eq_filter _ _ h radius hr b v kids hc, List.mem_filter, decide_eq_true_eq]
+  rw [searchRoot_eq_filter _ _ h radius hr _ hc, List.mem_filter, decide_eq_true_eq]
+
+/-- the one-position tree: the stored point is returned iff it is within range (the statement
+that failed before the fix of `get_first_node`) -/
+theorem octree_single_position (pos : Nat → V3 ℝ) (box : Box3 ℝ) (h : Nat → ℝ) (c : V3 ℝ)
+    (radius : Option ℝ) :
+    searchRoot (fun i => dist (pos i) c) (fun b => boxDist b c) h radius (build pos 1 box h) =
+      if dist (pos 0) c ≤ limOf h radius 0 then [0] else [] := by
+  cases radius <;> rfl
 
 /-- `add_position` never loses a stored index and adds at most the new one -/
 theorem octree_add_position_leaves (pos : Nat → V3 ℝ) (index fuel : Nat) (t : OT ℝ) (box : Box3 ℝ) (i : Nat) :
